@@ -1,6 +1,8 @@
 """Structural features of a query IR (what known findings and the evidence classes refer to)."""
 from __future__ import annotations
 
+import json
+
 from .lang import close_refs, cond_refs, cond_terms, query_refs, term_refs, walk_conds
 
 
@@ -29,8 +31,20 @@ def filtered_domain_size(ir, i):
     return n
 
 
+def _walk_terms(t):
+    yield t
+    if isinstance(t, dict) and "of" in t:
+        yield from _walk_terms(t["of"])
+
+
+def _has_symcall(c):
+    from .lang import cond_terms
+
+    return any(x.get("t") == "symcall" for n in walk_conds(c) for t in cond_terms(n) for x in _walk_terms(t) if isinstance(x, dict))
+
+
 def _has_pred(c):
-    return any(n["c"] in ("pred", "symfn", "hastype") for n in walk_conds(c))
+    return any(n["c"] in ("pred", "symfn", "hastype") for n in walk_conds(c)) or _has_symcall(c)
 
 
 def or_chain(ir, c):
@@ -181,4 +195,9 @@ def query_classes(ir):
         cls.append("plain_value_variable")
         if any(v.get("plain") and any(not x for x in v["dom"]) for v in ir["vars"]):
             cls.append("plain_falsy_value")
+    text = json.dumps(ir["conds"]) + json.dumps(ir["sel"])
+    if '"symcall"' in text:
+        cls.append("symbolic_function_output_as_operand")
+    if '"share"' in text:
+        cls.append("expression_object_occurs_twice")
     return cls
